@@ -507,4 +507,11 @@ theorem gen_vec_retain (c : Cfg) (v : VS) (cb : Nat → Elem → Option Bool) (w
 #print axioms gen_df_next
 #print axioms gen_df_drop
 
+/-- `DrainFilter::size_hint`: `(0, Some(old_len - idx))` — at most the elements not yet visited; the fields do not change -/
+theorem gen_df_size_hint (c : Cfg) (cb : Nat → Elem → Option Bool) (idx del oldLen calls : Nat) (pf : Bool) (h : idx ≤ oldLen) :
+    Gen.Fn.df_size_hint c cb idx del oldLen calls pf = .ok (.ok (0, some (oldLen - idx)), idx, del, oldLen, calls, pf) := by
+  simp [Gen.Fn.df_size_hint, h]
+
+#print axioms gen_df_size_hint
+
 end Bump.V
